@@ -34,8 +34,14 @@ NB_PEG = [
     ('nb_peg', 'nb_peg_slice', 'PUSH(a|b){0,3} ~ PEEK[0..1] ~ PEEK[-1..] ~ POP_ALL; all strings<=9 chars over {a,b}', 'q'),
     ('nb_peg', 'nb_peg_leaf', 'insensitive ~ (range | ANY) ~ NEWLINE? ~ skip-until; all strings<=5 chars over 8 chars incl. CR LF 2- and 4-byte', 'q'),
     ('nb_peg', 'nb_peg_nest', 'SOI ~ (a{1,2} ~ b?)* ~ EOI with skips; all strings<=8 chars', 'q'),
+    ('nb_peg', 'nb_peg_bal', 'PUSH(a) ~ ((DROP ~ PUSH(b) ~ c) | b) ~ POP; all strings<=7 chars over {a,b,c}', 'q'),
+    ('nb_peg', 'nb_peg_optpush', 'PUSH(a) ~ (PUSH(a) ~ b)? ~ a? ~ POP; all strings<=7 chars over {a,b,c}', 'q'),
+    ('nb_peg', 'nb_peg_reppush', '(PUSH(a) ~ b){1,3} ~ PEEK_ALL; all strings<=8 chars over {a,b,c}', 'q'),
+    ('nb_peg', 'nb_peg_repbal', 'PUSH(a) ~ (DROP ~ PUSH(b) ~ c)* ~ b? ~ POP; all strings<=8 chars over {a,b,c}', 'q'),
+    ('nb_peg', 'nb_peg_predmut', 'PUSH(a) ~ &(POP ~ PUSH(b)) ~ !(DROP ~ c) ~ POP; all strings<=6 chars over {a,b,c}', 'q'),
 ]
-NB_PEG_STACK = [t for t in NB_PEG if t[1] in ('nb_peg_push_pop', 'nb_peg_pred', 'nb_peg_rep_choice', 'nb_peg_slice')]
+NB_PEG_STACK = [t for t in NB_PEG if t[1] in ('nb_peg_push_pop', 'nb_peg_pred', 'nb_peg_rep_choice', 'nb_peg_slice', 'nb_peg_bal', 'nb_peg_optpush', 'nb_peg_reppush', 'nb_peg_repbal', 'nb_peg_predmut')]
+NB_SLICES = ('nb_slices', 'nb_slices', 'all stacks of depth<=4 over {a,bb} x all PEEK[a..b], PEEK[a..] with a,b in -6..=6 x all inputs<=5 chars', 'q')
 NB_PEG_D1 = ('nb_peg', 'nb_peg_d1', 'PUSH(a) ~ ((POP? ~ b) | PEEK); all strings<=6 chars over {a,b}', 'q')
 NB_GEN = ('derive:nb_gen', 'nb_gen_vs_pest', 'generated parser vs pest: 18 rules (all kinds/operators) x all strings<=5 chars over 3 alphabets', 'q')
 NB_GEN_SUB = ('derive:nb_gen', 'nb_gen_subinput', 'generated parser: 7 rules x all strings<=4 chars over 2 alphabets x all sub-ranges (Span/Position vs fresh copy)', 'q')
@@ -122,7 +128,7 @@ PROPS = {
             ('k_idx', 'idx_constrain_full', 'complete', 'q', 'all i32 x Option<i32> x len<=i32::MAX'),
             ('k_idx', 'idx_constrain_contract', 'contract', 'q', 'kani contract on constrain_idxs'),
         ],
-        'native': NB_PEG_STACK,
+        'native': NB_PEG_STACK + [NB_SLICES],
         'assumptions': [
             'stack length <= i32::MAX (precondition of the index arithmetic; `len as i32` wraps beyond it — D6 in DESIGN.md)',
         ],
